@@ -212,7 +212,7 @@ class ForcePlatformsDataBlock(Block):
             raise ValueError("platform must be a ForcePlatformData instance")
 
         if channel is None:
-            channel = len(self._platforms)
+            channel = max(self._plat_map) + 1 if len(self._plat_map) > 0 else 0
         if channel in self._plat_map:
             raise ValueError(f"Channel {channel} already in use")
         self._plat_map.append(channel)
